@@ -17,6 +17,12 @@ CLAIMED = {
    text='About 1 350 rotation matrices per menu entry (17 axes x 47 angles including 0, +-1e-1..1e-12, pi-1e-1..1e-12, pi; the matrices of the binary octahedral and icosahedral groups, a conjugate and a coset; exactly symmetric half-turns) '
         'x 9 method/version/threshold choices x 5 routes, every combination executed; the returned quaternion is rebuilt into a matrix by the reference and compared. Every Shepperd pivot branch, trace<=0, angle 0 and angle pi classes are required non-empty.',
    note='Lattice of angles/axes, not all of SO(3); tolerances 1e-9 (Shepperd, Bar-Itzhack) and 1e-7 below pi-1e-6 (closed-form methods). Trusted: mc/ref/quat.py.'),
+ 'C10': dict(cat='exploration', tech='exhaustive grid walk over designed angle/axis/exponent/sequence lattices on the real code, reference = elementary rotations and Rodrigues',
+   text='2 560 roll-pitch-yaw triples x 3 routes; 17 axes x every alphabet angle in (0, pi) (1e-12 ... pi-1e-12) for quaternion<->axis-angle, matrix<->axis-angle, exp(log q), matrix logarithm; 10 exponents and all exponent pairs; all 39 axis sequences of length 1-3 x 5^len angle tuples; non-unit lattice for exp/log. Every point is executed, none sampled.',
+   note='Lattices, not the continuum; conditioning-aware tolerances listed in the evidence assumptions; known finding: exp/log of positive real non-unit quaternions (test-pinned).'),
+ 'C12': dict(cat='model_checking', tech='exhaustive enumeration of all gap/sign histories of bounded quaternion sequences (every word over {+,-,NaN}) and complete endpoint-pair tables, executed on the real slerp/slerp_nan/remove_jumps',
+   text='Every ordered pair of the binary octahedral group and of a generic coset, a grid of 324 near-equal/near-antipodal/threshold pairs per base point x 9 weights through both SLERP copies; every word over {+,-,NaN} of length 3..8 (10 in thorough) on three base sequences, i.e. all interior NaN subsets, all sign patterns and all mixtures, through slerp_nan (both modes) then remove_jumps, and q_correct. The reference geodesic is p exp(t log(p^-1 q)).',
+   note='Bounded to sequences of <= 8 (10) rows and the listed endpoint alphabets; LERP-branch tolerance 1e-12 + 0.02 Omega^3; exact ties (orthogonal endpoints) accept either arc.'),
 }
 PENDING_REASON = 'check not built yet in this session (planned in DESIGN.md section 3); not claimed until it runs clean'
 
